@@ -189,6 +189,25 @@ func (e *Engine) Run(cases []*Case) {
 		c.Sites = map[string]int{}
 		e.push(&WorkItem{c: c})
 	}
+	if os.Getenv("GOSX_PROGRESS") != "" {
+		go func() {
+			for {
+				time.Sleep(15 * time.Second)
+				e.mu.Lock()
+				q, inf := len(e.queue), e.inflight
+				e.mu.Unlock()
+				var sb strings.Builder
+				for _, c := range cases {
+					c.mu.Lock()
+					if c.Stats.Started > 0 {
+						fmt.Fprintf(&sb, " %s:%d/%d/%d", c.String(), c.Stats.Completed, c.Stats.Infeasible, c.Stats.Inconclusive)
+					}
+					c.mu.Unlock()
+				}
+				fmt.Fprintf(os.Stderr, "PROGRESS queue=%d inflight=%d%s\n", q, inf, sb.String())
+			}
+		}()
+	}
 	var wg sync.WaitGroup
 	for i := 0; i < e.nworkers; i++ {
 		wg.Add(1)
@@ -553,7 +572,6 @@ func (p *Path) learn(c *Term, val bool) {
 	if (c.op == OAnd && val) || (c.op == OOr && !val) {
 		p.learn(c.args[0], val)
 		p.learn(c.args[1], val)
-		return
 	}
 	if p.known == nil {
 		p.known = map[uint64][]knownCond{}
@@ -596,6 +614,40 @@ func (p *Path) implied(c *Term) (bool, bool) {
 	for _, k := range p.known[c.Hash()] {
 		if deepSame(k.t, c) {
 			return k.val == pol, true
+		}
+	}
+	// boolean structure
+	switch c.op {
+	case OAnd, OOr:
+		a, aok := p.implied(c.args[0])
+		b, bok := p.implied(c.args[1])
+		if c.op == OAnd {
+			if (aok && !a) || (bok && !b) {
+				return !pol, true
+			}
+			if aok && bok {
+				return pol, true
+			}
+		} else {
+			if (aok && a) || (bok && b) {
+				return pol, true
+			}
+			if aok && bok {
+				return !pol, true
+			}
+		}
+	case OIte:
+		if cv, ok := p.implied(c.args[0]); ok {
+			var r bool
+			var rok bool
+			if cv {
+				r, rok = p.implied(c.args[1])
+			} else {
+				r, rok = p.implied(c.args[2])
+			}
+			if rok {
+				return r == pol, true
+			}
 		}
 	}
 	// a little order reasoning: a<b known  =>  not b<a, not a=b
